@@ -10,13 +10,16 @@ import os, re, sys, shutil
 
 REPO = "/repo"
 SHADOW = sys.argv[1]
+# --plain: mirror without the std::sync rewrite (fallback when a tree uses a part of
+# std::sync's API the shim does not mirror, so that such a tree is still checked)
+PLAIN = "--plain" in sys.argv[2:]
 # crates whose sources get the rewrite (ast-grep's own code that runs under the scheduler)
 REWRITE = {"core", "config", "cli", "lsp", "dynamic", "language"}
 SKIP_FILES = {"verif.rs"}  # the hook modules themselves must keep using std's primitives
 PAT = re.compile(r"(?<![A-Za-z0-9_])(?:::)?(?:std|core)::sync::")
 
 def transform(crate, rel, data):
-    if crate in REWRITE and rel.endswith(".rs") and os.path.basename(rel) not in SKIP_FILES and "/src/" in "/" + rel:
+    if not PLAIN and crate in REWRITE and rel.endswith(".rs") and os.path.basename(rel) not in SKIP_FILES and "/src/" in "/" + rel:
         try:
             text = data.decode("utf-8")
         except UnicodeDecodeError:
